@@ -619,7 +619,13 @@ function describeIndexObjectMember(
   key: Runtype,
   value: Runtype,
 ): { docText?: string; member: string } {
-  return describeObjectMember(ctx, `[K in ${describeTypeExpr(ctx, key)}]`, value);
+  // the key variable must not be the name of a type the description refers to: `{ [K in string]: K }` would bind
+  // the value `K` to the key
+  let keyVariable = "K";
+  while (Object.prototype.hasOwnProperty.call(ctx.refCounts, keyVariable)) {
+    keyVariable += "_";
+  }
+  return describeObjectMember(ctx, `[${keyVariable} in ${describeTypeExpr(ctx, key)}]`, value);
 }
 
 function renderObjectMember(member: { docText?: string; member: string }): string {
